@@ -71,6 +71,7 @@ type bufOp struct {
 	How    string `json:"how"`    // New: zero/bytes/string/cap/marshal
 	Cap    int    `json:"cap"`    // New(how=cap): capacity of the slice handed over
 	WA     int    `json:"wa"`     // WriteTo: how many bytes the writer accepts (short/err)
+	Fixed  bool   `json:"fixed"`  // replayed from a recording: take the arguments as they are
 }
 
 type bufBehaviour struct {
@@ -452,6 +453,15 @@ func bufExec(x bufAPI, op *bufOp, e *evw) (res *bufResult) {
 		res.rb, res.hasB, res.err = append([]byte(nil), x.Bytes()...), true, "nil"
 	case "String":
 		res.rb, res.hasB, res.err = []byte(x.String()), true, "nil"
+	case "NilString": // String() on a nil receiver (documented for bytes.Buffer); does not touch x
+		var str string
+		switch x.(type) {
+		case *slog.PrintCtx:
+			str = (*slog.PrintCtx)(nil).String()
+		default:
+			str = (*bytes.Buffer)(nil).String()
+		}
+		res.rb, res.hasB, res.err = []byte(str), true, "nil"
 	default:
 		panic(fmt.Sprintf("worker: unknown buffer op %q", op.Op))
 	}
@@ -553,12 +563,21 @@ func (r *bufRunner) step(pc, bb bufAPI, op *bufOp, obs string, last bool, idx in
 			op.N = r.rng.Intn(min(a, 3) + 1)
 		case "nofit":
 			op.N = a + 1 + r.rng.Intn(3)
+		case "nofitbig":
+			op.N = a + 65 + r.rng.Intn(3)
 		case "neg":
 			op.N = -1 - r.rng.Intn(3)
 		default:
 			op.N = bufHuge + r.rng.Intn(2)
 		}
 		op.Kind = ""
+	}
+	if op.Op == "Grow" && !op.Fixed && op.N >= 0 && op.N < bufHuge {
+		// If the two implementations have different spare capacity, aim between them: the only
+		// way a capacity difference can show through the listed calls (lock-step cross-check).
+		if ap, ab := pc.Available(), bb.Available(); ap != ab && r.rng.Intn(2) == 0 {
+			op.N = min(ap, ab) + 1
+		}
 	}
 	var results [2]*bufResult
 	sampled := r.rng.Intn(12) == 0
@@ -678,7 +697,7 @@ type bufGen struct {
 var bufTokens = [][]byte{
 	{'a'}, {'b'}, {'c'}, {'\n'}, {' '}, {0}, {0x7f},
 	{0xc3, 0xa9}, {0xe2, 0x82, 0xac}, {0xf0, 0x9f, 0x98, 0x80}, {0xef, 0xbf, 0xbd}, // é € 😀 U+FFFD
-	{0xa9}, {0xc3}, {0xe2, 0x82}, {0xf0, 0x9f, 0x98}, {0xff}, {0xc0, 0x80}, {0xed, 0xa0, 0x80}, // broken / overlong / surrogate
+	{0xa9}, {0x80}, {0xbf}, {0xc3}, {0xe2, 0x82}, {0xf0, 0x9f, 0x98}, {0xff}, {0xc0, 0x80}, {0xed, 0xa0, 0x80}, // broken / overlong / surrogate
 	{0xf4, 0x90, 0x80, 0x80}, {0xf4, 0x8f, 0xbf, 0xbf}, {0xe0, 0x9f, 0xbf}, {0xe0, 0xa0, 0x80}, {0xc2, 0x80}, {0xdf, 0xbf},
 	{0xf0, 0x90, 0x80, 0x80}, {0xf0, 0x8f, 0xbf, 0xbf}, {0xed, 0x9f, 0xbf}, {0xc1, 0xbf}, {0xf5, 0x80, 0x80, 0x80},
 }
@@ -901,6 +920,8 @@ func (g *bufGen) otherOp(x bufAPI) bufOp {
 		return bufOp{Op: "Grow", N: n}
 	case k < 76:
 		return bufOp{Op: "Reset"}
+	case k < 77:
+		return bufOp{Op: "NilString"}
 	case k < 84:
 		return bufOp{Op: "Len"}
 	case k < 92:
